@@ -60,6 +60,13 @@ SWAPS = [("is_signer", "is_writable"), ("saturating_add", "wrapping_add"), ("sat
          ("copy_from_slice", "clone_from_slice")]
 
 
+def baseline(f):
+    """the committed text of a source file (HEAD of /repo), independent of what the working tree holds right now"""
+    rc, o = sh(["git", "-C", REPO, "show", "HEAD:" + f])
+    assert rc == 0, o
+    return o
+
+
 def code_region(lines):
     """indices of lines that are library code: before the first #[cfg(test)], not comments/attributes/use."""
     out = []
@@ -151,10 +158,7 @@ def gen(out):
     os.makedirs(out, exist_ok=True)
     muts = []
     for f, (crate, props, pkgs) in TARGETS.items():
-        path = os.path.join(REPO, f)
-        if not os.path.exists(path):
-            continue
-        lines = open(path).read().split("\n")
+        lines = baseline(f).split("\n")
         for i in code_region(lines):
             l = lines[i]
             seen = set()
@@ -214,7 +218,7 @@ def setup_worker(out, k):
 
 def apply_mutant(W, m):
     p = os.path.join(W, "repo", m["file"])
-    lines = open(os.path.join(REPO, m["file"])).read().split("\n")
+    lines = baseline(m["file"]).split("\n")
     l = lines[m["line"] - 1]
     if m["op"] == "del":
         lines[m["line"] - 1] = l[:len(l) - len(l.lstrip())] + "/* deleted */"
@@ -226,7 +230,7 @@ def apply_mutant(W, m):
 
 
 def restore(W, m):
-    shutil.copyfile(os.path.join(REPO, m["file"]), os.path.join(W, "repo", m["file"]))
+    open(os.path.join(W, "repo", m["file"]), "w").write(baseline(m["file"]))
 
 
 def run_one(W, m, tier):
